@@ -126,6 +126,12 @@ def run(ctx):
                 prior = [x for x in p.events[:i] if x.kind == "SUB" and not x.raised and x.loops == e.loops]
                 ctx.ob("C09.R4", fi, bool(prior), "append is preceded by a successful element parse in the same iteration", key="append order", node=e.node)
     ctx.ob("C09.R4", fi, n_fail >= 1 and n_app >= 1, "failing and succeeding element edges were analysed", key="edges covered")
+    for cls, rule in (("Select", "C09.R3"), ("GreedyRange", "C09.R4")):
+        f2, ps = own_method_paths(ctx, cls, "_parse")
+        trs2 = [t for t in uniq_events(ps, "TRY") if any(e.kind == "SUB" and t["tid"] in e.trys for p in ps for e in p.events)]
+        total = bool(trs2) and all(any(set(h) & {"Exception", "BaseException", "*"} for h in t["handlers"]) for t in trs2)
+        ctx.ob(rule, f2, total, "%s._parse: the handler that restores the position catches every exception of the failing %s (`except Exception`), not only ConstructErrors -- a KeyError out of a context expression must not leave the stream mid-element" % (
+            cls, "alternative" if cls == "Select" else "element"), key="total handler")
     ctx.floor("C09.R4", 5)
 
     # ---------------------------------------------------------------- R5 Union
